@@ -2,7 +2,7 @@
 
     /venv/bin/python harness/pygen_pxnet_mutants.py [NAME ...]
 
-Same procedure as harness/pygen_mutants.py: every mutant is a copy of avocado_i2n/vmnet/netconfig.py with ONE small
+Same procedure as harness/pygen_mutants.py: every mutant is a copy of avocado_i2n/vmnet/netconfig.py (or network.py) with ONE small
 textual edit (/repo is not touched); the translator is run on the copy, the generated Lean file is written in place of
 the committed one and the Props file is built.  Expected: the translator refuses (`refused`) or an equality theorem
 no longer compiles (`proof-breaks`).  At the end the generated file is restored from the real source and rebuilt.
@@ -114,29 +114,172 @@ MUTANTS = {
                            "rstrip per octet (equal on contiguous masks)"),
 }
 
+# ---- second round: validate (netconfig.py), reattach_interface / integrate_node (network.py); a 4th element names the file
+W = "avocado_i2n/vmnet/network.py"
+
+VA_HOST = '        if self.host_ip is not None and self.host_ip != "":\n'
+VA_END = ('        addresses["ip_end"] = ipaddress.ip_interface(\n'
+          '            "%s/%s" % (self.ip_end, self.mask_bit)\n'
+          '        )\n')
+VA_ASSERTS = ('            assert interface.netconfig == self\n'
+              '            assert self.interfaces[interface.ip] == interface\n')
+VA_IF_TEST = '            if ip not in own.network:\n'
+VA_ADDR_TEST = '            if addresses[key] not in own.network:\n'
+VA_IF_LOOP = '        for interface in self.interfaces.values():\n            assert'
+VA_OWN = '        own = ipaddress.ip_interface("%s/%s" % (self.net_ip, self.mask_bit))\n'
+VA_ASSERT_START = '        assert self.ip_start is not None\n'
+
+RE_DETACH = '        del interface.netconfig.interfaces[interface.ip]\n'
+RE_ALLOC = '        interface.ip = netconfig.get_allocatable_address()\n'
+RE_ADD = '        netconfig.add_interface(interface)\n        if proxy_interface is not None:\n'
+RE_SEL = '        if proxy_nic != "" and proxy_nic != server_nic:\n'
+RE_PROXY_IF = '        if proxy_interface is not None:\n'
+RE_PROXY_DEL = '            del netconfig.interfaces[interface.ip]\n'
+RE_REF_IP = '            ref_interface.ip = proxy_interface.ip\n'
+RE_NETCONFIG = '        netconfig = ref_interface.netconfig\n'
+RE_REF = '        ref_interface = self.interfaces["%s.%s" % (server.name, server_nic)]\n'
+RE_PROXY_NC = '            interface.netconfig = proxy_interface.netconfig\n'
+
+IN_LOOP = ('            for netconfig in self.netconfigs.values():\n'
+           '                if netconfig.can_add_interface(interface):\n')
+IN_BREAK = ('                    netconfig.add_interface(interface)\n'
+            '                    break\n')
+IN_NEW = ('                netconfig = self.new_netconfig()\n'
+          '                netconfig.from_interface(interface)\n')
+IN_NEW_ADD = ('                netconfig.add_interface(interface)\n'
+              '                self.netconfigs[netconfig.net_ip] = netconfig\n')
+INIT_LOOP = '        for vm_name in params.objects("vms"):\n'
+INIT_NODE = '            self.nodes[vm_name] = self.new_node(vm)\n'
+INIT_CALL = '            self.integrate_node(self.nodes[vm_name])\n'
+INIT_LOG = '        logging.debug("Constructed network configuration:\\n%s", self)\n'
+IN_OUTER = '        for interface in node.interfaces.values():\n'
+
+MUTANTS.update({
+    # ---- validate (validate_matches_source)
+    "va-host-always": ([(VA_HOST, '        if self.host_ip is not None:\n')], "refused",
+                       "validate: an empty host string is checked like an address"),
+    "va-no-ip-end": ([(VA_END, '')], "proof-breaks", "validate: the end of the range is not checked"),
+    "va-end-is-start": ([(VA_END, VA_END.replace('self.ip_end', 'self.ip_start'))], "proof-breaks",
+                        "validate: the start of the range is checked twice, the end never"),
+    "va-dup-key": ([(VA_END, VA_END.replace('"ip_end"', '"ip_start"'))], "refused",
+                   "validate: the end overwrites the start in the dictionary (the list rewrite needs distinct keys)"),
+    "va-asserts-swapped": ([(VA_ASSERTS, '            assert self.interfaces[interface.ip] == interface\n'
+                                          '            assert interface.netconfig == self\n')], "proof-breaks",
+                           "validate: KeyError / AssertionError in the other order"),
+    "va-assert-dropped": ([(VA_ASSERTS, '            assert self.interfaces[interface.ip] == interface\n')], "proof-breaks",
+                          "validate: the back reference of an interface is not checked"),
+    "va-assert-ne": ([(VA_ASSERTS, VA_ASSERTS.replace('== interface', '!= interface'))], "proof-breaks",
+                     "validate: identity assert inverted"),
+    "va-iface-in": ([(VA_IF_TEST, '            if ip in own.network:\n')], "proof-breaks",
+                    "validate: TestError for interfaces INSIDE the network"),
+    "va-addr-in": ([(VA_ADDR_TEST, '            if addresses[key] in own.network:\n')], "proof-breaks",
+                   "validate: TestError for predefined addresses INSIDE the network"),
+    "va-testfail": ([(VA_IF_TEST + '                raise exceptions.TestError(', VA_IF_TEST + '                raise exceptions.TestFail(')],
+                    "refused", "validate: another exception class"),
+    "va-iface-keys": ([(VA_IF_LOOP, VA_IF_LOOP.replace('.values()', '.keys()'))], "refused",
+                      "validate: the interface loop iterates over the addresses"),
+    "va-own-host": ([(VA_OWN, VA_OWN.replace('self.net_ip', 'self.host_ip'))], "refused",
+                    "validate: the own network is taken from the host address"),
+    "va-no-assert-start": ([(VA_ASSERT_START, '')], "refused", "validate: `assert self.ip_start is not None` dropped"),
+    # ---- reattach_interface (reattach_matches_source)
+    "re-skip-detach-member": ([(RE_DETACH, '        if interface.netconfig is not netconfig:\n    ' + RE_DETACH)], "refused",
+                              "seeded regression: the detach is skipped when the interface is already a member", W),
+    "re-no-detach": ([(RE_DETACH, '')], "refused", "reattach: no detach from the old netconfig", W),
+    "re-detach-after-attach": ([(RE_DETACH, ''), (RE_ADD, RE_ADD.replace('        if proxy', RE_DETACH + '        if proxy'))],
+                               "proof-breaks", "reattach: detach (by the NEW address) after the attach", W),
+    "re-add-before-alloc": ([(RE_ALLOC, ''), (RE_ADD, RE_ADD.replace('        if proxy', RE_ALLOC + '        if proxy'))],
+                            "proof-breaks", "reattach: add_interface under the old address, then the new address", W),
+    "re-detach-from-new": ([(RE_DETACH, '        del netconfig.interfaces[interface.ip]\n')], "refused",
+                           "reattach: the address is deleted from the NEW netconfig", W),
+    "re-proxy-and-to-or": ([(RE_SEL, RE_SEL.replace(' and ', ' or '))], "proof-breaks",
+                           "reattach: proxy selection `and` -> `or`", W),
+    "re-proxy-eq": ([(RE_SEL, RE_SEL.replace('proxy_nic != server_nic', 'proxy_nic == server_nic'))], "proof-breaks",
+                    "reattach: proxy selected when it IS the server nic", W),
+    "re-proxy-no-empty-test": ([(RE_SEL, '        if proxy_nic != server_nic:\n')], "proof-breaks",
+                               "reattach: the empty proxy name is looked up", W),
+    "re-proxy-is-none": ([(RE_PROXY_IF, '        if proxy_interface is None:\n')], "refused",
+                         "reattach: the proxy part runs without a proxy", W),
+    "re-proxy-keep-registered": ([(RE_PROXY_DEL + RE_REF_IP, RE_REF_IP)], "refused",
+                                 "reattach: the client stays registered in the server netconfig", W),
+    "re-ref-ip-from-client": ([(RE_REF_IP, '            ref_interface.ip = interface.ip\n')], "refused",
+                              "reattach: the server nic takes the client's address", W),
+    "re-proxy-nc-from-ref": ([(RE_PROXY_NC, '            interface.netconfig = ref_interface.netconfig\n')], "refused",
+                             "reattach: the client's netconfig reference is the server's, not the proxy's", W),
+    "re-proxy-del-last": ([(RE_PROXY_DEL + RE_REF_IP, RE_REF_IP), (RE_PROXY_NC, RE_PROXY_NC + RE_PROXY_DEL)], "proof-breaks",
+                          "reattach: the registration is deleted under the proxy side address (KeyError)", W),
+    "re-netconfig-of-client": ([(RE_NETCONFIG, '        netconfig = interface.netconfig\n')], "refused",
+                               "reattach: the target netconfig is the client's own", W),
+    "re-ref-of-client": ([(RE_REF, RE_REF.replace('server.name', 'client.name'))], "refused",
+                         "reattach: the reference interface is looked up on the client", W),
+    # ---- integrate_node (integrateNode_matches_source)
+    "in-merge-after-loop": ([(IN_OUTER, '        new_netconfigs = {}\n' + IN_OUTER),
+                             (IN_NEW_ADD, IN_NEW_ADD.replace('self.netconfigs[netconfig.net_ip] = netconfig\n',
+                                                             'new_netconfigs[netconfig.net_ip] = netconfig\n'
+                                                             '        self.netconfigs.update(new_netconfigs)\n'))],
+                            "refused", "seeded regression: the new netconfigs are registered after the loop", W),
+    "in-merge-after-loop-2": ([(IN_NEW_ADD, IN_NEW_ADD.replace('self.netconfigs[netconfig.net_ip] = netconfig\n',
+                                                               'node.new_netconfigs[netconfig.net_ip] = netconfig\n'
+                                                               '        self.netconfigs.update(node.new_netconfigs)\n'))],
+                              "refused", "the same regression without a new local", W),
+    "in-no-break": ([(IN_BREAK, IN_BREAK.replace('                    break\n', ''))], "refused",
+                    "integrate_node: the interface is added to every netconfig that takes it", W),
+    "in-test-negated": ([(IN_LOOP, IN_LOOP.replace('if netconfig', 'if not netconfig'))], "proof-breaks",
+                        "integrate_node: the first netconfig that REFUSES the interface gets it", W),
+    "in-no-from-interface": ([(IN_NEW, IN_NEW.replace('                netconfig.from_interface(interface)\n', ''))],
+                             "refused", "integrate_node: the new netconfig is not initialised", W),
+    "in-add-before-from": ([(IN_NEW, '                netconfig = self.new_netconfig()\n'),
+                            (IN_NEW_ADD, IN_NEW_ADD.replace('                self.netconfigs', '                netconfig.from_interface(interface)\n                self.netconfigs'))],
+                           "proof-breaks", "integrate_node: add_interface (and validate) on the uninitialised netconfig", W),
+    "in-no-add-in-new": ([(IN_NEW_ADD, '                self.netconfigs[netconfig.net_ip] = netconfig\n')], "refused",
+                         "integrate_node: the interface is not added to its new netconfig", W),
+    "in-register-by-ip": ([(IN_NEW_ADD, IN_NEW_ADD.replace('[netconfig.net_ip]', '[interface.ip]'))], "refused",
+                          "integrate_node: registered under the interface address", W),
+    "in-reversed": ([(IN_LOOP, IN_LOOP.replace('self.netconfigs.values()', 'reversed(list(self.netconfigs.values()))'))],
+                    "refused", "integrate_node: the LAST registered netconfig that takes the interface", W),
+    # ---- __init__ (init_matches_source)
+    "init-integrate-twice": ([(INIT_CALL, INIT_CALL + INIT_CALL)], "refused",
+                             "__init__: integrate_node twice per vm", W),
+    "init-no-integrate": ([(INIT_CALL, '')], "refused", "__init__: the vm nodes are not integrated", W),
+    "init-reversed": ([(INIT_LOOP, '        for vm_name in reversed(params.objects("vms")):\n')], "refused",
+                      "__init__: the vms are integrated in reverse order", W),
+    "init-reset-registry": ([(INIT_LOOP, INIT_LOOP + '            self.netconfigs = {}\n')], "refused",
+                            "__init__: the registry is emptied for every vm", W),
+    "init-node-after": ([(INIT_NODE + INIT_CALL, INIT_CALL + INIT_NODE)], "refused",
+                        "__init__: the node is registered after its integration (KeyError in Python)", W),
+    "init-integrate-behind-loop": ([(INIT_CALL, ''), (INIT_LOG, '        self.integrate_node(self.nodes[vm_name])\n' + INIT_LOG)],
+                                   "refused", "__init__: only the last vm is integrated", W),
+    "in-found-no-add": ([(IN_BREAK, '                    pass\n                    break\n')], "refused",
+                        "integrate_node: the interface is not added to the netconfig that takes it", W),
+})
+
 GEN, PROPS = "GenNet.lean", ["I2N.Props.C18"]
+GENW = "GenNetwork.lean"
 
 
 def run_one(name, scratch):
-    edits, expect, what = MUTANTS[name]
-    src = os.path.join(vlib.REPO, N)
+    edits, expect, what = MUTANTS[name][:3]
+    rel = MUTANTS[name][3] if len(MUTANTS[name]) > 3 else N
+    src = os.path.join(vlib.REPO, rel)
     text = open(src).read()
     for old, new in edits:
         if text.count(old) != 1:
             raise RuntimeError(f"{name}: the text to edit occurs {text.count(old)} times in {src}")
         text = text.replace(old, new)
-    dst = os.path.join(scratch, name + "_netconfig.py")
+    dst = os.path.join(scratch, name + "_" + os.path.basename(rel))
     with open(dst, "w") as fh:
         fh.write(text)
     res = {"mutant": name, "what": what, "expected": expect}
     try:
-        lean = pygen_pxnet.net_source(dst)
+        lean = pygen_pxnet.net_source(dst) if rel == N else pygen_pxnet.network_source(dst)
     except pygen.Unsupported as e:
         res.update(outcome="refused", detail=str(e)[:200])
         return res
-    with open(os.path.join(vlib.LEAN, "I2N", "Extracted", GEN), "w") as fh:
+    with open(os.path.join(vlib.LEAN, "I2N", "Extracted", GEN if rel == N else GENW), "w") as fh:
         fh.write(lean)
     ok, log = vlib.lake_build(PROPS)
+    # put the real file back at once: the next mutant may be of the other source file
+    pygen.write_if_changed(pygen._lean_path(GEN if rel == N else GENW),
+                           pygen_pxnet.net_source() if rel == N else pygen_pxnet.network_source())
     errs = [l for l in log.splitlines() if l.startswith("error:")]
     res.update(outcome="still-proves" if ok else "proof-breaks", detail=(errs[0][:200] if errs else ""))
     return res
@@ -144,6 +287,7 @@ def run_one(name, scratch):
 
 def restore():
     pygen.write_if_changed(pygen._lean_path(GEN), pygen_pxnet.net_source())
+    pygen.write_if_changed(pygen._lean_path(GENW), pygen_pxnet.network_source())
     ok, log = vlib.lake_build(PROPS)
     if not ok:
         raise RuntimeError("the restored generated file does not build: " + log[-500:])
